@@ -13,7 +13,7 @@ from ..variants import Variant
 from .resultrun import PARAM_OF_SCENARIO, SCENARIOS, ResultInterp, Tagged, build_edge_case_handler, build_zero_tp_handler, call_method, metric_objs, reducer_verdict, scenario_of, obj_attr
 
 INFO = {
-    "explanation": "The edge-case classes are run abstractly on symbolic results: (R08.2) MetricZeroTPEdgeCaseHandling.__init__ on all 32 given/None patterns binds each scenario to its own parameter or the default; (R08.1) its __call__ on the sign classes of (tp,n_pred,n_ref) returns the scenario's value and never reaches the trailing raise; (R08.3) EdgeCaseHandler.handle_zero_tp dispatches to the handler of that metric with uncrossed counts; (R08.5/R08.6) PanopticaResult.__init__ run end-to-end on symbolic handlers: for tp=0 every list metric's AVG is the handler value of the realised scenario and STD the empty-list value, for tp>0 the handler has no influence; (R08.4) typestate of panoptic_evaluate: matching and evaluation are reached only in zero-checked state, _handle_zero_instances_cases returns tp=0/empty lists/uncrossed counts in each empty class; (R08.7) calculate_all swallows every exception of a derived metric. Delegated: the decision step really yields tp=0 for 'instances on both sides without a match' (R02.1, incl. thresholds equal to 0). Delegated: the final result receives the pair's own instance counts (pipeline wiring R01.2). R08.4 runs the zero-instance helper on symbolic counts and evaluates each path's result on the grid {0,1,2,3,7}^2 restricted to the points satisfying the path's decisions (comparisons with constants <= 3, verified). Further: R08.5 also with a handler that prescribes None; delegated R04.2 (an unmatched prediction is never relabelled onto a reference label), R15.8/R15.3 (handlers share no container), R12.2 (the arrays of a class group are the restriction of the caller's own prediction / reference, also for groups present on one side only - otherwise the wrong zero-TP scenario is realised). Round 7: every setting the zero-instance helper receives has a value of its own and must reach the result constructor under its own name.",
+    "explanation": "The edge-case classes are run abstractly on symbolic results: (R08.2) MetricZeroTPEdgeCaseHandling.__init__ on all 32 given/None patterns binds each scenario to its own parameter or the default; (R08.1) its __call__ on the sign classes of (tp,n_pred,n_ref) returns the scenario's value and never reaches the trailing raise; (R08.3) EdgeCaseHandler.handle_zero_tp dispatches to the handler of that metric with uncrossed counts; (R08.5/R08.6) PanopticaResult.__init__ run end-to-end on symbolic handlers: for tp=0 every list metric's AVG is the handler value of the realised scenario and STD the empty-list value, for tp>0 the handler has no influence; (R08.4) typestate of panoptic_evaluate: matching and evaluation are reached only in zero-checked state, _handle_zero_instances_cases returns tp=0/empty lists/uncrossed counts in each empty class; (R08.7) calculate_all swallows every exception of a derived metric. Delegated: the decision step really yields tp=0 for 'instances on both sides without a match' (R02.1, incl. thresholds equal to 0). Delegated: the final result receives the pair's own instance counts (pipeline wiring R01.2). R08.4 runs the zero-instance helper on symbolic counts and evaluates each path's result on the grid {0,1,2,3,7}^2 restricted to the points satisfying the path's decisions (comparisons with constants <= 3, verified). Further: R08.5 also with a handler that prescribes None; delegated R04.2 (an unmatched prediction is never relabelled onto a reference label), R15.8/R15.3 (handlers share no container), R12.2 (the arrays of a class group are the restriction of the caller's own prediction / reference, also for groups present on one side only - otherwise the wrong zero-TP scenario is realised). Round 7: every setting the zero-instance helper receives has a value of its own and must reach the result constructor under its own name. Round 9: aggregates computed on first use are read through __getattr__ (a prescribed None must stay None, not be recomputed as the mean of an empty list).",
     "trusted_base": ["Python semantics of the modelled AST subset", "np.average/np.std/np.sum/np.min/np.max treated as uninterpreted reducers"],
     "assumptions": ["the configured handler defines every evaluated metric (precondition of the property)"],
     "not_decided": ["numerical values of the metrics for tp>0 (C06/C07)"],
